@@ -154,6 +154,10 @@ func (e *Engine) verifyContract(c *Contract) (res *UnitResult) {
 	for _, r := range c.Requires {
 		u.fact(envIn.Bool(r.Expr))
 	}
+	for _, w := range c.Witness {
+		wv := x.bind(envIn.Eval(w.Expr), "wit_"+w.Label)
+		u.inputs = append(u.inputs, ModelVar{Name: w.Label, Term: wv.T, Sort: wv.S, Ty: wv.Ty})
+	}
 	vac := u.oblige("vacuity:requires-sat", "vacuity", "requires and type invariants are satisfiable", fr.pos(fd.Pos()), "true", "true")
 	vac.ExpectSat = true
 	// body
